@@ -360,6 +360,9 @@ func sweep(env *vh.Env, rep *vh.Report, only map[string]bool, facts lockFacts) {
 			"how": fmt.Sprintf("construct the type, bring it into the state '%s' (keys 1..n), call %s with %s (seed %d) once under a 2 s watchdog", r.state, r.m, keyTxt, r.key)}
 		switch {
 		case r.out.Timeout:
+			if isPointOp(r.typ, r.m) {
+				markDead(r.typ)
+			}
 			rep.Fail("property", tm+":deadlock",
 				fmt.Sprintf("%s with a %s in state '%s' did not return within %v: it blocks on the instance's own lock", tm, keyTxt, r.state, watchdog), replay)
 		case r.out.Panic != "" && !r.empty:
